@@ -1,21 +1,12 @@
 import PyYetiVerif.Props.C10
 import PyYetiVerif.Props.C10Fde
-import PyYetiVerif.Props.C10Fix
-import PyYetiVerif.Props.C10FixFde
 import PyYetiVerif.Props.C10Bins
 import PyYetiVerif.Props.C10Labels
 import PyYetiVerif.Props.C10Psd
 import PyYetiVerif.Props.C10Locate
 #print axioms PyYetiVerif.C10.seq_first_selected
 #print axioms PyYetiVerif.C10.seq_alternates
-#print axioms PyYetiVerif.C10.seq_extremes_within_two_stol
-#print axioms PyYetiVerif.C10.seq_end_rule_counterexample
-#print axioms PyYetiVerif.C10.seq_unbound_counterexample
 #print axioms PyYetiVerif.C10.default_first_selected
-#print axioms PyYetiVerif.C10.default_alternates_partial
-#print axioms PyYetiVerif.C10.default_extremes_partial
-#print axioms PyYetiVerif.C10.default_drift_counterexample
-#print axioms PyYetiVerif.C10.variants_differ_counterexample
 #print axioms PyYetiVerif.C10.digitize_spec
 #print axioms PyYetiVerif.C10.binify_places
 #print axioms PyYetiVerif.C10.binify_conserves
@@ -33,24 +24,11 @@ import PyYetiVerif.Props.C10Locate
 #print axioms PyYetiVerif.C10.test_damage_positive
 #print axioms PyYetiVerif.C10.test_variance_reproduces_internal
 #print axioms PyYetiVerif.C10.test_variance_reproduces
-#print axioms PyYetiVerif.C10.test_variance_pvelo_factor
-#print axioms PyYetiVerif.C10.test_variance_pvelo_counterexample
 #print axioms PyYetiVerif.C10.G_b_monotone_in_damage
 #print axioms PyYetiVerif.C10.G2_ge_G1_loop
 #print axioms PyYetiVerif.C10.psd_quadratic_scaling
 #print axioms PyYetiVerif.C10.cycle_table_scaling
 #print axioms PyYetiVerif.C10.psd_quadratic_scaling_signal
-#print axioms PyYetiVerif.C10.findap_fixed_first_selected
-#print axioms PyYetiVerif.C10.findap_fixed_alternates
-#print axioms PyYetiVerif.C10.findap_fixed_extremes_within_stol
-#print axioms PyYetiVerif.C10.findap_fixed_variants_agree
-#print axioms PyYetiVerif.C10.findap_fixed_numba_variant
-#print axioms PyYetiVerif.C10.findap_fixed_unchanged_on_fast_path
-#print axioms PyYetiVerif.C10.findap_fixed_F4_example
-#print axioms PyYetiVerif.C10.findap_fixed_F14_F22_F23_examples
-#print axioms PyYetiVerif.C10.test_variance_reproduces_fixed
-#print axioms PyYetiVerif.C10.var_test_is_documented_variance
-#print axioms PyYetiVerif.C10.fix_F25_changes_var_test_only
 #print axioms PyYetiVerif.C10.digitize_eq_iff
 #print axioms PyYetiVerif.C10.explicit_bins_range
 #print axioms PyYetiVerif.C10.binify_drops_uncovered
@@ -77,3 +55,13 @@ import PyYetiVerif.Props.C10Locate
 #print axioms PyYetiVerif.C10.find_unique_length
 #print axioms PyYetiVerif.C10.findap_uses_find_unique
 #print axioms PyYetiVerif.C10.find_unique_boundary_example
+#print axioms PyYetiVerif.C10.default_alternates
+#print axioms PyYetiVerif.C10.default_extremes
+#print axioms PyYetiVerif.C10.default_total
+#print axioms PyYetiVerif.C10.default_fast_path_is_find_unique
+#print axioms PyYetiVerif.C10.variants_agree
+#print axioms PyYetiVerif.C10.seq_total
+#print axioms PyYetiVerif.C10.seq_extremes
+#print axioms PyYetiVerif.C10.fixed_F4_example
+#print axioms PyYetiVerif.C10.fixed_F14_F22_F23_examples
+#print axioms PyYetiVerif.C10.var_test_is_documented_variance
